@@ -226,6 +226,24 @@ func streamSparse(c *Ctx) {
 			}
 		}
 	}
+	// every look-alike of a reserved namespace: the low byte of tx (01), pay-for-blob (04), reserved padding
+	// (ff) with one non-zero byte at each of the other nine positions of the user part
+	for _, low := range []byte{0x01, 0x04, 0xff} {
+		for pos := 0; pos < 9; pos++ {
+			sub := make([]byte, 10)
+			sub[9] = low
+			sub[pos] = 0xab
+			ns, err := share.NewV0Namespace(sub)
+			if err != nil || ns.ValidateForBlob() != nil {
+				continue
+			}
+			for _, n := range []int{5, 477, 478, 1000} {
+				c.sparseCase([]blobSpec{c.randBlob(ns, n, n == 477)}, []int{2}, 0, 1)
+			}
+			c.dist("lookalike-namespace")
+		}
+	}
+	c.stats.Exhaustive = append(c.stats.Exhaustive, "27 look-alikes of reserved namespaces x 4 blob sizes with namespace padding")
 	nl := c.n(1200, 30000)
 	for i := 0; i < nl; i++ {
 		k := c.rng.Range(1, 6)
